@@ -1,22 +1,22 @@
-// Executor for C17: builds Go configuration types at run time (reflect.StructOf, incl.
-// embedded structs), renders the abstract document as JSON (encoding/json), YAML
-// (gopkg.in/yaml.v2) and TOML (github.com/pelletier/go-toml/v2), loads the three texts with
-// conf.LoadFromJsonBytes / LoadFromYamlBytes / LoadFromTomlBytes, a re-cased variant of the
-// document, and conf.Load on files with and without conf.UseEnv(); for "std" cases it
-// decodes the JSON text with mapping.UnmarshalJsonBytes and with encoding/json.
+// Executor for C17: builds Go configuration types at run time (verifh/c17t: reflect.StructOf,
+// incl. embedded structs, arrays, declared named types, time.Duration, json.Number, any,
+// []byte), renders the abstract document as JSON (encoding/json), YAML (gopkg.in/yaml.v2) and
+// TOML (github.com/pelletier/go-toml/v2) — or takes hand-written texts — and loads them with
+// conf.LoadFrom{Json,Yaml,Toml}Bytes, the deprecated LoadConfig* wrappers, conf.Load / MustLoad
+// on files (by extension, with and without conf.UseEnv()), conf.LoadProperties, and a re-cased
+// variant of the document; for "std" cases it decodes the JSON text with
+// mapping.UnmarshalJsonBytes and with encoding/json.  All cases of a run are executed in ONE
+// process, one after the other (state leaking from one call into a later one is visible).
 // It only executes: generation, shrinking and rendering for Coq are in tools/props/c17.py.
-// (type builder and dump copied from harness/cmd/c08)
 package main
 
 import (
 	"bytes"
 	"encoding/json"
 	"fmt"
-	"math"
 	"os"
 	"path/filepath"
 	"reflect"
-	"sort"
 	"strconv"
 	"strings"
 
@@ -24,42 +24,11 @@ import (
 	"github.com/zeromicro/go-zero/core/conf"
 	"github.com/zeromicro/go-zero/core/mapping"
 	yaml "gopkg.in/yaml.v2"
+	"verifh/c17t"
 	"verifh/hx"
 )
 
-type Range struct {
-	LI bool    `json:"li"`
-	L  *string `json:"l"`
-	R  *string `json:"r"`
-	RI bool    `json:"ri"`
-}
-
-type Opts struct {
-	Opt     bool     `json:"opt"`
-	Dep     *string  `json:"dep"`
-	Neg     bool     `json:"neg"`
-	Def     *string  `json:"def"`
-	Range   *Range   `json:"range"`
-	Options []string `json:"options"`
-	Str     bool     `json:"str"`
-}
-
-type Field struct {
-	Key string  `json:"key"`
-	T   *Type   `json:"t"`
-	O   *Opts   `json:"o"`
-	Emb bool    `json:"emb"`
-	Tag *string `json:"tag"` // embedded: optional json name
-	F   []Field `json:"f"`   // embedded: the fields of the anonymous struct
-	EOpt bool   `json:"eopt"` // embedded: tagged ",optional"
-	EPtr bool   `json:"eptr"` // embedded: pointer to the struct
-}
-
-type Type struct {
-	K string  `json:"k"`
-	E *Type   `json:"e"`
-	F []Field `json:"f"`
-}
+type Field = c17t.C17Field
 
 // Doc is the abstract document.
 type Doc struct {
@@ -78,12 +47,15 @@ type KV struct {
 }
 
 type Case struct {
-	ID   int               `json:"id"`
-	Kind string            `json:"kind"` // "load" | "std"
-	Type []Field           `json:"type"`
-	Doc  Doc               `json:"doc"`
-	Doc2 *Doc              `json:"doc2"`
-	Env  map[string]string `json:"env"`
+	ID     int               `json:"id"`
+	Kind   string            `json:"kind"` // "load" | "std" | "shape" | "bad"
+	Type   []Field           `json:"type"`
+	Doc    Doc               `json:"doc"`
+	Doc2   *Doc              `json:"doc2"`
+	Env    map[string]string `json:"env"`
+	Texts  map[string]string `json:"texts"`  // hand-written renderings of Doc (instead of the printers')
+	NoLoad bool              `json:"noload"` // shape: only the type is of interest (white-box run)
+	Props  [][2]string       `json:"props"`  // env cases: lines of a properties file
 }
 
 type Res struct {
@@ -93,220 +65,25 @@ type Res struct {
 }
 
 type Out struct {
-	ID     int               `json:"id"`
-	Fail   string            `json:"fail,omitempty"`
-	Texts  map[string]string `json:"texts,omitempty"`
-	Texts2 map[string]string `json:"texts2,omitempty"`
-	Load   map[string]Res    `json:"load,omitempty"`
-	Load2  map[string]Res    `json:"load2,omitempty"`
-	EnvOn  map[string]Res    `json:"envon,omitempty"`
-	EnvOff map[string]Res    `json:"envoff,omitempty"`
-	EnvRef map[string]Res    `json:"envref,omitempty"` // LoadFrom*Bytes of os.ExpandEnv(text): what UseEnv must equal
-	ByExt  map[string]Res    `json:"byext,omitempty"`  // conf.Load on c<ext>, loader chosen by the extension
-	Must   map[string]Res    `json:"must,omitempty"`   // conf.MustLoad where Load succeeded
-	Fill   *Res              `json:"fill,omitempty"`   // conf.FillDefault on a fresh value
-	Map    *Res              `json:"mapping,omitempty"`
-	Std    *Res              `json:"stdjson,omitempty"`
-}
-
-var prim = map[string]reflect.Type{
-	"bool": reflect.TypeOf(false), "int": reflect.TypeOf(int(0)), "int8": reflect.TypeOf(int8(0)),
-	"int16": reflect.TypeOf(int16(0)), "int32": reflect.TypeOf(int32(0)), "int64": reflect.TypeOf(int64(0)),
-	"uint": reflect.TypeOf(uint(0)), "uint8": reflect.TypeOf(uint8(0)), "uint16": reflect.TypeOf(uint16(0)),
-	"uint32": reflect.TypeOf(uint32(0)), "uint64": reflect.TypeOf(uint64(0)),
-	"float32": reflect.TypeOf(float32(0)), "float64": reflect.TypeOf(float64(0)), "string": reflect.TypeOf(""),
-}
-
-func renderRange(r *Range) string {
-	var b strings.Builder
-	if r.LI {
-		b.WriteByte('[')
-	} else {
-		b.WriteByte('(')
-	}
-	if r.L != nil {
-		b.WriteString(*r.L)
-	}
-	b.WriteByte(':')
-	if r.R != nil {
-		b.WriteString(*r.R)
-	}
-	if r.RI {
-		b.WriteByte(']')
-	} else {
-		b.WriteByte(')')
-	}
-	return b.String()
-}
-
-func renderTag(f Field) string {
-	segs := []string{f.Key}
-	if o := f.O; o != nil {
-		if o.Opt {
-			if o.Dep != nil {
-				if o.Neg {
-					segs = append(segs, "optional=!"+*o.Dep)
-				} else {
-					segs = append(segs, "optional="+*o.Dep)
-				}
-			} else {
-				segs = append(segs, "optional")
-			}
-		}
-		if o.Def != nil {
-			segs = append(segs, "default="+*o.Def)
-		}
-		if o.Range != nil {
-			segs = append(segs, "range="+renderRange(o.Range))
-		}
-		if len(o.Options) > 0 {
-			segs = append(segs, "options="+strings.Join(o.Options, "|"))
-		}
-		if o.Str {
-			segs = append(segs, "string")
-		}
-	}
-	return `json:"` + strings.Join(segs, ",") + `"`
-}
-
-func buildStruct(fields []Field) (reflect.Type, error) {
-	fs := make([]reflect.StructField, 0, len(fields))
-	for i, f := range fields {
-		if f.Emb {
-			st, err := buildStruct(f.F)
-			if err != nil {
-				return nil, err
-			}
-			if f.EPtr {
-				st = reflect.PointerTo(st)
-			}
-			sf := reflect.StructField{Name: fmt.Sprintf("E%d", i), Type: st, Anonymous: true}
-			name := ""
-			if f.Tag != nil {
-				name = *f.Tag
-			}
-			if f.EOpt {
-				sf.Tag = reflect.StructTag(`json:"` + name + `,optional"`)
-			} else if f.Tag != nil {
-				sf.Tag = reflect.StructTag(`json:"` + name + `"`)
-			}
-			fs = append(fs, sf)
-			continue
-		}
-		ft, err := build(f.T)
-		if err != nil {
-			return nil, err
-		}
-		fs = append(fs, reflect.StructField{
-			Name: fmt.Sprintf("F%d", i),
-			Type: ft,
-			Tag:  reflect.StructTag(renderTag(f)),
-		})
-	}
-	return reflect.StructOf(fs), nil
-}
-
-func build(t *Type) (reflect.Type, error) {
-	if t == nil {
-		return nil, fmt.Errorf("nil type")
-	}
-	switch t.K {
-	case "ptr":
-		e, err := build(t.E)
-		if err != nil {
-			return nil, err
-		}
-		return reflect.PointerTo(e), nil
-	case "slice":
-		e, err := build(t.E)
-		if err != nil {
-			return nil, err
-		}
-		return reflect.SliceOf(e), nil
-	case "map":
-		e, err := build(t.E)
-		if err != nil {
-			return nil, err
-		}
-		return reflect.MapOf(prim["string"], e), nil
-	case "struct":
-		return buildStruct(t.F)
-	default:
-		p, ok := prim[t.K]
-		if !ok {
-			return nil, fmt.Errorf("unknown kind %q", t.K)
-		}
-		return p, nil
-	}
-}
-
-func fmtFloat(f float64, bits int) string {
-	if math.IsNaN(f) {
-		return "NaN"
-	}
-	if math.IsInf(f, 1) {
-		return "+Inf"
-	}
-	if math.IsInf(f, -1) {
-		return "-Inf"
-	}
-	if bits == 32 {
-		return strconv.FormatFloat(f, 'e', 5, 32)
-	}
-	return strconv.FormatFloat(f, 'e', 14, 64)
-}
-
-func dump(v reflect.Value) any {
-	switch v.Kind() {
-	case reflect.Bool:
-		return map[string]any{"b": v.Bool()}
-	case reflect.Int, reflect.Int8, reflect.Int16, reflect.Int32, reflect.Int64:
-		return map[string]any{"i": strconv.FormatInt(v.Int(), 10)}
-	case reflect.Uint, reflect.Uint8, reflect.Uint16, reflect.Uint32, reflect.Uint64:
-		return map[string]any{"i": strconv.FormatUint(v.Uint(), 10)}
-	case reflect.Float32:
-		return map[string]any{"f": fmtFloat(v.Float(), 32)}
-	case reflect.Float64:
-		return map[string]any{"f": fmtFloat(v.Float(), 64)}
-	case reflect.String:
-		return map[string]any{"s": v.String()}
-	case reflect.Ptr:
-		if v.IsNil() {
-			return map[string]any{"z": 1}
-		}
-		return map[string]any{"p": dump(v.Elem())}
-	case reflect.Slice:
-		if v.IsNil() {
-			return map[string]any{"z": 1}
-		}
-		l := make([]any, 0, v.Len())
-		for i := 0; i < v.Len(); i++ {
-			l = append(l, dump(v.Index(i)))
-		}
-		return map[string]any{"l": l}
-	case reflect.Map:
-		if v.IsNil() {
-			return map[string]any{"z": 1}
-		}
-		keys := make([]string, 0, v.Len())
-		for _, k := range v.MapKeys() {
-			keys = append(keys, k.String())
-		}
-		sort.Strings(keys)
-		l := make([]any, 0, len(keys))
-		for _, k := range keys {
-			l = append(l, []any{k, dump(v.MapIndex(reflect.ValueOf(k)))})
-		}
-		return map[string]any{"m": l}
-	case reflect.Struct:
-		l := make([]any, 0, v.NumField())
-		for i := 0; i < v.NumField(); i++ {
-			l = append(l, dump(v.Field(i)))
-		}
-		return map[string]any{"st": l}
-	default:
-		return map[string]any{"unknown": v.Kind().String()}
-	}
+	ID       int               `json:"id"`
+	Fail     string            `json:"fail,omitempty"`
+	TDesc    string            `json:"tdesc,omitempty"` // structure of the built type, as reflect sees it
+	Texts    map[string]string `json:"texts,omitempty"`
+	Texts2   map[string]string `json:"texts2,omitempty"`
+	Load     map[string]Res    `json:"load,omitempty"`
+	Load2    map[string]Res    `json:"load2,omitempty"`
+	EnvOn    map[string]Res    `json:"envon,omitempty"`
+	EnvOff   map[string]Res    `json:"envoff,omitempty"`
+	EnvRef   map[string]Res    `json:"envref,omitempty"` // LoadFrom*Bytes of os.ExpandEnv(text): what UseEnv must equal
+	ByExt    map[string]Res    `json:"byext,omitempty"`  // conf.Load on c<ext>, loader chosen by the extension
+	Must     map[string]Res    `json:"must,omitempty"`   // conf.MustLoad where Load succeeded
+	Depr     map[string]Res    `json:"depr,omitempty"`   // LoadConfigFromJsonBytes / LoadConfigFromYamlBytes / LoadConfig
+	Fill     *Res              `json:"fill,omitempty"`   // conf.FillDefault on a fresh value
+	PropsOn  map[string]string `json:"propson,omitempty"`
+	PropsOff map[string]string `json:"propsoff,omitempty"`
+	PropsErr string            `json:"propserr,omitempty"`
+	Map      *Res              `json:"mapping,omitempty"`
+	Std      *Res              `json:"stdjson,omitempty"`
 }
 
 // ---------------------------------------------------------------- rendering
@@ -515,7 +292,7 @@ func run(rt reflect.Type, call func(target any) error) (res Res) {
 		}
 		return Res{Verdict: "error", Err: e}
 	}
-	return Res{Verdict: "ok", Val: dump(target.Elem())}
+	return Res{Verdict: "ok", Val: c17t.C17Dump(target.Elem())}
 }
 
 var formats = []string{"json", "yaml", "toml"}
@@ -560,41 +337,104 @@ func loadByExt(rt reflect.Type, dir string, texts map[string]string) (map[string
 	return res, must, nil
 }
 
+// the deprecated wrappers must behave like the functions they wrap
+func loadDeprecated(rt reflect.Type, dir string, texts map[string]string) (map[string]Res, error) {
+	res := map[string]Res{}
+	res[".json"] = run(rt, func(t any) error { return conf.LoadConfigFromJsonBytes([]byte(texts["json"]), t) })
+	res[".yaml"] = run(rt, func(t any) error { return conf.LoadConfigFromYamlBytes([]byte(texts["yaml"]), t) })
+	p := filepath.Join(dir, "d.toml")
+	if err := os.WriteFile(p, []byte(texts["toml"]), 0o600); err != nil {
+		return nil, err
+	}
+	res[".toml"] = run(rt, func(t any) error { return conf.LoadConfig(p, t) })
+	return res, nil
+}
+
+func loadProps(dir string, lines [][2]string, opts ...conf.Option) (map[string]string, error) {
+	var b strings.Builder
+	b.WriteString("# C17 properties\n\n")
+	for _, kv := range lines {
+		b.WriteString(kv[0] + " = " + kv[1] + "\n")
+	}
+	p := filepath.Join(dir, "p.properties")
+	if err := os.WriteFile(p, []byte(b.String()), 0o600); err != nil {
+		return nil, err
+	}
+	props, err := conf.LoadProperties(p, opts...)
+	if err != nil {
+		return nil, err
+	}
+	res := map[string]string{}
+	for _, kv := range lines {
+		res[kv[0]] = props.GetString(kv[0])
+	}
+	return res, nil
+}
+
+func buildType(fs []Field) (rt reflect.Type, err error) {
+	defer func() {
+		if p := recover(); p != nil { // reflect.StructOf refuses some embeddings
+			err = fmt.Errorf("%v", p)
+		}
+	}()
+	return c17t.C17BuildStruct(fs)
+}
+
 func runCase(c Case, dir string) (out Out) {
 	out.ID = c.ID
-	rt, err := buildStruct(c.Type)
+	rt, err := buildType(c.Type)
 	if err != nil {
 		out.Fail = "build type: " + err.Error()
 		return
 	}
-	texts, err := render(&c.Doc, c.Kind == "std")
-	if err != nil {
-		out.Fail = "render: " + err.Error()
+	out.TDesc = c17t.C17Describe(rt)
+	if c.Kind == "bad" { // malformed texts: every loader must answer with an error
+		out.Texts = c.Texts
+		out.Load = loadBytes(rt, c.Texts)
 		return
 	}
+	texts := c.Texts
+	if texts == nil {
+		if texts, err = render(&c.Doc, c.Kind == "std"); err != nil {
+			out.Fail = "render: " + err.Error()
+			return
+		}
+	}
 	out.Texts = texts
+	if c.Doc2 != nil {
+		if out.Texts2, err = render(c.Doc2, false); err != nil {
+			out.Fail = "render doc2: " + err.Error()
+			return
+		}
+	}
 	switch c.Kind {
 	case "std":
 		raw := []byte(texts["json"])
 		m := run(rt, func(t any) error { return mapping.UnmarshalJsonBytes(raw, t) })
 		s := run(rt, func(t any) error { return json.Unmarshal(raw, t) })
 		out.Map, out.Std = &m, &s
+	case "shape":
+		if c.NoLoad {
+			return
+		}
+		out.Load = loadBytes(rt, texts)
+		if c.Doc2 != nil {
+			out.Load2 = loadBytes(rt, out.Texts2)
+		}
 	case "load":
 		out.Load = loadBytes(rt, texts)
 		if out.ByExt, out.Must, err = loadByExt(rt, dir, texts); err != nil {
 			out.Fail = "files: " + err.Error()
 			return
 		}
+		if out.Depr, err = loadDeprecated(rt, dir, texts); err != nil {
+			out.Fail = "files: " + err.Error()
+			return
+		}
 		f := run(rt, func(t any) error { return conf.FillDefault(t) })
 		out.Fill = &f
 		if c.Doc2 != nil {
-			texts2, err := render(c.Doc2, false)
-			if err != nil {
-				out.Fail = "render doc2: " + err.Error()
-				return
-			}
-			out.Texts2 = texts2
-			out.Load2 = loadBytes(rt, texts2)
+			out.Load2 = loadBytes(rt, out.Texts2)
 		}
 		if c.Env != nil {
 			for k, v := range c.Env {
@@ -605,9 +445,16 @@ func runCase(c Case, dir string) (out Out) {
 					os.Unsetenv(k)
 				}
 			}()
+			// the order matters: the calls WITH conf.UseEnv() come first, the ones without
+			// afterwards must not be affected by them
 			if out.EnvOn, err = loadFiles(rt, dir, texts, conf.UseEnv()); err != nil {
 				out.Fail = "files: " + err.Error()
 				return
+			}
+			if c.Props != nil {
+				if out.PropsOn, err = loadProps(dir, c.Props, conf.UseEnv()); err != nil {
+					out.PropsErr = err.Error()
+				}
 			}
 			exp := map[string]string{}
 			for k, v := range texts {
@@ -617,6 +464,11 @@ func runCase(c Case, dir string) (out Out) {
 			if out.EnvOff, err = loadFiles(rt, dir, texts); err != nil {
 				out.Fail = "files: " + err.Error()
 				return
+			}
+			if c.Props != nil {
+				if out.PropsOff, err = loadProps(dir, c.Props); err != nil {
+					out.PropsErr = err.Error()
+				}
 			}
 		}
 	default:
